@@ -19,12 +19,17 @@ pub fn generate(tier: &str, rng: &mut Rng) -> Vec<Spec> {
             v.push(Spec::new("wav").with("N", n).with("la", join_rats(&la)).with("ha", join_rats(&ha)).with("ls", join_rats(&ls)).with("hs", join_rats(&hs)).with("xs", join_rats(&xs)));
         } } } }
     for _ in 0..(if t { 2500 } else { 400 }) {
-        let n = *rng.pick(&[1usize, 2, 3, 4, 6, 8]);
+        let n = *rng.pick(&[1usize, 2, 3, 4, 6, 8, 16, 18, 20]);
         let k = |rng: &mut Rng| (0..n).map(|_| Rat::new(rng.range(-4, 4) as i128, rng.range(1, 3) as i128)).collect::<Vec<Rat>>();
         let len = rng.range(1, if t { 30 } else { 16 }) as usize;
         let xs: Vec<Rat> = (0..len).map(|_| Rat::new(rng.range(-6, 6) as i128, rng.range(1, 2) as i128)).collect();
         v.push(Spec::new("wav").with("N", n).with("la", join_rats(&k(rng))).with("ha", join_rats(&k(rng))).with("ls", join_rats(&k(rng))).with("hs", join_rats(&k(rng))).with("xs", join_rats(&xs)));
     }
+    // data through the kernels of the longer presets' widths (the exact rational kernels of the model)
+    for n in [16usize, 18, 20] { for j in 0..(if t { 4 } else { 2 }) {
+        let k = |rng: &mut Rng| (0..n).map(|i| Rat::new(rng.range(-4, 4) as i128 + if i + 2 >= n { 3 } else { 0 }, 4)).collect::<Vec<Rat>>();
+        let xs: Vec<Rat> = (0..(n + 12 + j)).map(|_| Rat::int(rng.range(-5, 5))).collect();
+        v.push(Spec::new("wav").with("N", n).with("la", join_rats(&k(rng))).with("ha", join_rats(&k(rng))).with("ls", join_rats(&k(rng))).with("hs", join_rats(&k(rng))).with("xs", join_rats(&xs))); } }
     for n in (2..=20).step_by(2) { for ty in ["f32", "f64"] { v.push(Spec::new("daub").with("N", n).with("ty", ty)); } }
     v
 }
@@ -54,7 +59,7 @@ pub fn exec(s: &Spec, stats: &mut Stats) -> Outcome {
     if s.kind == "wav" {
         let (la, ha, ls, hs, xs) = (s.rats("la"), s.rats("ha"), s.rats("ls"), s.rats("hs"), s.rats("xs"));
         if [&la, &ha, &ls, &hs].iter().any(|k| k.len() != n) { return Outcome::Skip("kernel-length-mismatch"); }
-        crate::dispatch_n!(n, wav, (&la, &ha, &ls, &hs, &xs, stats); 1 2 3 4 6 8)
+        crate::dispatch_n!(n, wav, (&la, &ha, &ls, &hs, &xs, stats); 1 2 3 4 6 8 16 18 20)
     } else {
         let ty = s.get("ty");
         let ks = match daub_cfg!(n, ty; 2 4 6 8 10 12 14 16 18 20) { Some(k) => k, None => return Outcome::Skip("order-not-instantiated") };
